@@ -72,6 +72,7 @@ struct Slot
     ResetPtr reset;
     ImportSourcePtr imp;
     size_t users = 1; // import source: number of importing entities that share it
+    bool partial = false; // connection: some variable pairs report the connection id, others report none
 };
 
 struct Index
@@ -79,6 +80,19 @@ struct Index
     std::vector<Slot> slots;
     bool inconsistentConnection = false; // direct pairs of one connection report different connection ids
     bool foreignEquivalence = false; // an equivalent variable outside the model tree
+    // ids inside MathML strings (component math, test_value, reset_value; math element and descendants): not items that
+    // can be looked up, but identifiers present in the model that an automatic id must not repeat
+    std::vector<std::pair<std::string, std::string>> mathIds; // (id, where)
+
+    std::string mathCarrier(const std::string &id) const
+    {
+        for (const auto &m : mathIds) {
+            if (m.first == id) {
+                return m.second;
+            }
+        }
+        return "";
+    }
 
     std::vector<size_t> withId(const std::string &id) const
     {
@@ -143,6 +157,48 @@ std::vector<ComponentPtr> allComponents(const ModelPtr &m)
 bool contains(const std::vector<ComponentPtr> &v, const ComponentPtr &c)
 {
     return std::find(v.begin(), v.end(), c) != v.end();
+}
+
+void silentXml(void *, const char *, ...)
+{
+}
+
+void walkMathIds(xmlNodePtr n, const std::string &where, std::vector<std::pair<std::string, std::string>> &out)
+{
+    for (xmlNodePtr ch = n; ch != nullptr; ch = ch->next) {
+        if (ch->type != XML_ELEMENT_NODE) {
+            continue;
+        }
+        xmlChar *v = xmlGetNoNsProp(ch, reinterpret_cast<const xmlChar *>("id"));
+        if (v != nullptr) {
+            std::string id(reinterpret_cast<const char *>(v));
+            xmlFree(v);
+            if (!id.empty()) {
+                out.emplace_back(id, where + " <" + reinterpret_cast<const char *>(ch->name) + ">");
+            }
+        }
+        walkMathIds(ch->children, where, out);
+    }
+}
+
+// ids on the elements of a math string (several math elements may be concatenated), read with libxml2 in the harness
+void collectMathIds(const std::string &math, const std::string &where, std::vector<std::pair<std::string, std::string>> &out)
+{
+    if (math.find("id") == std::string::npos) {
+        return;
+    }
+    std::string doc = "<vp_wrap>" + math + "</vp_wrap>";
+    xmlSetGenericErrorFunc(nullptr, silentXml);
+    xmlSetStructuredErrorFunc(nullptr, nullptr);
+    xmlDocPtr d = xmlReadMemory(doc.c_str(), static_cast<int>(doc.size()), "m.xml", nullptr, XML_PARSE_NOERROR | XML_PARSE_NOWARNING | XML_PARSE_NONET);
+    if (d == nullptr) {
+        return;
+    }
+    xmlNodePtr root = xmlDocGetRootElement(d);
+    if (root != nullptr) {
+        walkMathIds(root->children, where, out);
+    }
+    xmlFreeDoc(d);
 }
 
 Index traverse(const ModelPtr &m)
@@ -318,13 +374,23 @@ Index traverse(const ModelPtr &m)
                 k.c1 = c;
                 k.c2 = oc;
                 out.push_back(k);
-                std::string cid = Variable::equivalenceConnectionId(var, other);
+                // The connection id is one attribute of one connection element but is stored per variable pair: the id of
+                // the connection is the one non-empty value its pairs report (in either direction); pairs that report none
+                // make the connection "partial"; two different non-empty values are ambiguous (case discarded).
+                std::string cid1 = Variable::equivalenceConnectionId(var, other);
+                std::string cid2 = Variable::equivalenceConnectionId(other, var);
                 bool known = false;
                 for (size_t i = firstPair; i < out.size(); ++i) {
                     if (out[i].type == T::CONNECTION && ((out[i].c1 == c && out[i].c2 == oc) || (out[i].c1 == oc && out[i].c2 == c))) {
                         known = true;
-                        if (out[i].id != cid) {
-                            ix.inconsistentConnection = true;
+                        for (const std::string &cid : {cid1, cid2}) {
+                            if (cid.empty()) {
+                                out[i].index = 1; // saw a pair without the id
+                            } else if (out[i].id.empty()) {
+                                out[i].id = cid;
+                            } else if (out[i].id != cid) {
+                                ix.inconsistentConnection = true;
+                            }
                         }
                     }
                 }
@@ -332,10 +398,27 @@ Index traverse(const ModelPtr &m)
                     Slot q = k;
                     q.type = T::CONNECTION;
                     q.key = "connection:" + pairKey(c->name(), oc->name());
-                    q.id = cid;
+                    q.id = !cid1.empty() ? cid1 : cid2;
+                    q.index = (cid1.empty() || cid2.empty()) ? 1 : 0;
+                    if (!cid1.empty() && !cid2.empty() && cid1 != cid2) {
+                        ix.inconsistentConnection = true;
+                    }
                     out.push_back(q);
                 }
             }
+        }
+    }
+    for (auto &q : out) {
+        if (q.type == T::CONNECTION) {
+            q.partial = q.index == 1 && !q.id.empty();
+            q.index = 0;
+        }
+    }
+    for (const auto &c : comps) {
+        collectMathIds(c->math(), "math of component " + c->name(), ix.mathIds);
+        for (size_t ri = 0; ri < c->resetCount(); ++ri) {
+            collectMathIds(c->reset(ri)->testValue(), "test_value math of reset " + c->name() + "#" + std::to_string(ri), ix.mathIds);
+            collectMathIds(c->reset(ri)->resetValue(), "reset_value math of reset " + c->name() + "#" + std::to_string(ri), ix.mathIds);
         }
     }
     {
@@ -449,6 +532,10 @@ struct World
     std::vector<std::pair<std::string, std::string>> cache; // (id, slot key)
     std::string hashState = "\x01none"; // visible state the stored hash was computed from
     std::string lastEditGroup; // "", "id", "add", "remove", "equiv"
+    // per-step choices added later; they are read from the tail of the step's values so that older tapes keep their meaning
+    bool checkSiblings = false; // this step also asks the typed getters of sibling kinds
+    int extraEdit = -1; // edit kinds 15..17
+    bool nonItemPair = false; // assignId on a variable pair that is no item of the model
     std::ostringstream log;
 
     static std::string visible(const Index &ix)
@@ -615,6 +702,14 @@ void unlinkVariable(World &w, const VariablePtr &v)
     }
 }
 
+// A math block whose math / apply / ci elements carry the given ids ("" = no id attribute).
+std::string mathWithIds(const std::string &var, const std::string &idMath, const std::string &idApply, const std::string &idCi)
+{
+    auto at = [](const std::string &id) { return id.empty() ? std::string() : " id=\"" + id + "\""; };
+    return "<math xmlns=\"http://www.w3.org/1998/Math/MathML\" xmlns:cellml=\"http://www.cellml.org/cellml/2.0#\"" + at(idMath) + "><apply" + at(idApply) + "><eq/><ci" + at(idCi) + ">" + var
+           + "</ci><cn cellml:units=\"dimensionless\">1</cn></apply></math>";
+}
+
 // One edit of the model through the public API. Returns its label.
 std::string doEdit(Src &src, World &w)
 {
@@ -633,6 +728,15 @@ std::string doEdit(Src &src, World &w)
         }
     }
     unsigned kind = static_cast<unsigned>(src.below(15));
+    if (w.extraEdit >= 0) {
+        kind = static_cast<unsigned>(w.extraEdit);
+    }
+    std::vector<size_t> connSlots;
+    for (size_t i = 0; i < ix.slots.size(); ++i) {
+        if (ix.slots[i].type == T::CONNECTION) {
+            connSlots.push_back(i);
+        }
+    }
     auto name = [&](const char *p) { return std::string(p) + std::to_string(++w.freshName); };
     switch (kind) {
     case 1: { // add a variable
@@ -929,6 +1033,131 @@ std::string doEdit(Src &src, World &w)
         w.log << "  edit replace variable " << comp->name() << "/" << old->name() << " by new variable " << v->name() << " with the same id '" << v->id() << "'\n";
         return "replace-variable";
     }
+    case 15: { // add a variable pair to an existing connection without touching any id (2-argument addEquivalence)
+        if (connSlots.empty()) {
+            break;
+        }
+        const Slot &cs = ix.slots[src.pick(connSlots)];
+        std::vector<std::pair<VariablePtr, VariablePtr>> cand;
+        for (size_t i = 0; i < cs.c1->variableCount(); ++i) {
+            for (size_t j = 0; j < cs.c2->variableCount(); ++j) {
+                if (mayLink(cs.c1->variable(i), cs.c2->variable(j))) {
+                    cand.emplace_back(cs.c1->variable(i), cs.c2->variable(j));
+                }
+            }
+        }
+        if (cand.empty()) {
+            // no free variables: make two
+            auto x = Variable::create(name("zv"));
+            auto y = Variable::create(name("zv"));
+            x->setUnits("dimensionless");
+            y->setUnits("dimensionless");
+            cs.c1->addVariable(x);
+            cs.c2->addVariable(y);
+            cand.emplace_back(x, y);
+        }
+        auto pr = src.pick(cand);
+        bool swap = src.flip(50);
+        Variable::addEquivalence(swap ? pr.second : pr.first, swap ? pr.first : pr.second);
+        w.lastEditGroup = "equiv";
+        w.log << "  edit add pair " << pr.first->name() << " ~ " << pr.second->name() << " to " << cs.key << " ('" << cs.id << "') with the 2-argument addEquivalence, no ids\n";
+        return cs.id.empty() ? "add-pair-to-connection" : "add-pair-to-labelled-connection";
+    }
+    case 16: { // the connection id is held by one variable pair of a connection only (4-argument addEquivalence)
+        std::vector<size_t> multi;
+        for (size_t ci : connSlots) {
+            size_t n = 0;
+            for (size_t mi : mapSlots) {
+                const Slot &ms = ix.slots[mi];
+                n += ((ms.c1 == ix.slots[ci].c1 && ms.c2 == ix.slots[ci].c2) || (ms.c1 == ix.slots[ci].c2 && ms.c2 == ix.slots[ci].c1)) ? 1 : 0;
+            }
+            if (n >= 2) {
+                multi.push_back(ci);
+            }
+        }
+        if (multi.empty()) {
+            // single-pair connections only: label one (through the setter) and add an unlabelled second pair
+            if (connSlots.empty()) {
+                break;
+            }
+            const Slot &one = ix.slots[src.pick(connSlots)];
+            std::string id1 = one.id.empty() ? chooseId(src, w, ix, false) : one.id;
+            Variable::setEquivalenceConnectionId(one.v1, one.v2, id1);
+            auto x = Variable::create(name("zv"));
+            auto y = Variable::create(name("zv"));
+            x->setUnits("dimensionless");
+            y->setUnits("dimensionless");
+            one.c1->addVariable(x);
+            one.c2->addVariable(y);
+            Variable::addEquivalence(x, y);
+            w.lastEditGroup = "equiv";
+            w.log << "  edit " << one.key << ": id '" << id1 << "', then a second pair " << x->name() << " ~ " << y->name() << " added with the 2-argument addEquivalence\n";
+            return "partial-connection-id";
+        }
+        const Slot &cs = ix.slots[src.pick(multi)];
+        std::vector<size_t> pairs;
+        for (size_t mi : mapSlots) {
+            const Slot &ms = ix.slots[mi];
+            if ((ms.c1 == cs.c1 && ms.c2 == cs.c2) || (ms.c1 == cs.c2 && ms.c2 == cs.c1)) {
+                pairs.push_back(mi);
+            }
+        }
+        std::string id = cs.id;
+        if (id.empty()) {
+            id = chooseId(src, w, ix, false);
+        }
+        // Which pair holds the id is tape-chosen, then rotated until some other pair reports no id through the public
+        // getter (what the getter reports depends on the address order of the variables in the unrepaired library).
+        size_t start = src.below(pairs.size());
+        size_t holder = start;
+        for (size_t t = 0; t < pairs.size(); ++t) {
+            holder = (start + t) % pairs.size();
+            Variable::setEquivalenceConnectionId(cs.v1, cs.v2, "");
+            const Slot &h = ix.slots[pairs[holder]];
+            Variable::addEquivalence(h.v1, h.v2, h.id, id);
+            bool visible = false;
+            for (size_t mi : pairs) {
+                const Slot &o = ix.slots[mi];
+                visible = visible || Variable::equivalenceConnectionId(o.v1, o.v2).empty() || Variable::equivalenceConnectionId(o.v2, o.v1).empty();
+            }
+            if (visible) {
+                break;
+            }
+        }
+        w.lastEditGroup = "equiv";
+        w.log << "  edit " << cs.key << ": id '" << id << "' held by one of its " << pairs.size() << " variable pairs only (4-argument addEquivalence)\n";
+        return "partial-connection-id";
+    }
+    case 17: { // ids inside MathML: component math or a reset's test / reset value
+        std::vector<ComponentPtr> cand;
+        for (const auto &cp : comps) {
+            if (!cp->isImport() && cp->variableCount() > 0) {
+                cand.push_back(cp);
+            }
+        }
+        if (cand.empty()) {
+            break;
+        }
+        auto comp = src.pick(cand);
+        std::string i1 = chooseId(src, w, ix, true), i2 = src.flip(50) ? chooseId(src, w, ix, true) : "", i3 = src.flip(30) ? chooseId(src, w, ix, true) : "";
+        std::string math = mathWithIds(comp->variable(0)->name(), i1, i2, i3);
+        std::string where = "math of component " + comp->name();
+        if (comp->resetCount() > 0 && src.flip(40)) {
+            auto r = comp->reset(src.below(comp->resetCount()));
+            if (src.flip(50)) {
+                r->setTestValue(math);
+                where = "test_value of a reset of " + comp->name();
+            } else {
+                r->setResetValue(math);
+                where = "reset_value of a reset of " + comp->name();
+            }
+        } else {
+            comp->setMath(math);
+        }
+        w.lastEditGroup = "math";
+        w.log << "  edit set " << where << " with MathML ids '" << i1 << "' '" << i2 << "' '" << i3 << "'\n";
+        return "set-math-ids";
+    }
     default: break;
     }
     // kind 0 and every inapplicable edit: set / remove the id of one slot
@@ -1101,6 +1330,27 @@ void checkIndex(World &w, const char *after)
             case T::CONNECTION: typed = a->connection(id) != nullptr; break;
             default: break;
             }
+            if (w.checkSiblings) {
+                // the typed getters of the kinds that share the C++ class must not answer for this id
+                bool none = true;
+                switch (s.type) {
+                case T::MODEL: none = a->encapsulation(id) == nullptr; break;
+                case T::ENCAPSULATION: none = a->model(id) == nullptr; break;
+                case T::COMPONENT: none = a->componentEncapsulation(id) == nullptr; break;
+                case T::COMPONENT_REF: none = a->component(id) == nullptr; break;
+                case T::RESET: none = a->testValue(id) == nullptr && a->resetValue(id) == nullptr; break;
+                case T::TEST_VALUE: none = a->reset(id) == nullptr && a->resetValue(id) == nullptr; break;
+                case T::RESET_VALUE: none = a->reset(id) == nullptr && a->testValue(id) == nullptr; break;
+                case T::MAP_VARIABLES: none = a->connection(id) == nullptr; break;
+                case T::CONNECTION: none = a->mapVariables(id) == nullptr; break;
+                default: break;
+                }
+                if (!monitor(w, "typed getter of a sibling kind").empty()) {
+                    return;
+                }
+                c.count("sibling_getter_checks");
+                VP_CHECK(c, none, "C13.index|typed-getter-sibling|" + std::string(typeName(s.type)), "after " << after << ": '" << id << "' is the id of " << s.key << " but the typed getter of a sibling kind returns an object for it");
+            }
             VP_CHECK(c, typed, "C13.index|" + stale + "typed-getter|" + typeName(s.type), "after " << after << ": the typed getter for '" << id << "' does not return " << s.key);
         } else {
             VP_CHECK(c, one->type() == T::UNDEFINED, "C13.index|" + stale + "item-non-unique|" + kindsOf(id), "after " << after << ": item('" << id << "') returned a " << typeName(one->type()) << " although " << slots.size() << " items carry the id");
@@ -1124,6 +1374,9 @@ struct AssignCall
     long target = -1; // slot index for assignId(item)
     bool expectNothing = false; // no model attached / foreign item: nothing may change
     bool viaAny = false; // assignId(AnyCellmlElement obtained from items())
+    bool refuse = false; // the item is not an item of the model: the call must be refused
+    VariablePtr nv1, nv2; // the non-item pair
+    std::string hiddenBefore; // what the pair getters reported for it before the call
     std::string returned; // assignId(item) return value
 };
 
@@ -1144,7 +1397,8 @@ void judgeAssign(World &w, const Index &pre, const AssignCall &call, bool verify
         bool requested = !call.expectNothing && (call.all || (call.byType && p.type == call.type) || static_cast<long>(i) == call.target);
         bool isTarget = !call.expectNothing && static_cast<long>(i) == call.target;
         if (!p.id.empty() && !isTarget) {
-            VP_CHECK(c, q.id == p.id, "C13.preserve|" + call.kind + "|" + typeName(p.type), p.key << " had id '" << p.id << "' and now has '" << q.id << "'");
+            VP_CHECK(c, q.id == p.id, (p.type == T::CONNECTION && p.partial) ? "C13.preserve|partial-connection-id|" + call.kind : "C13.preserve|" + call.kind + "|" + typeName(p.type),
+                     p.key << " had id '" << p.id << "' and now has '" << q.id << "'" << (p.partial ? " (the id was held by some variable pairs of the connection only)" : ""));
             continue;
         }
         if (isTarget) {
@@ -1173,10 +1427,20 @@ void judgeAssign(World &w, const Index &pre, const AssignCall &call, bool verify
         }
     }
     if (call.expectNothing) {
-        VP_CHECK(c, fresh.empty() && call.returned.empty(), "C13.no-model|" + call.kind, "an id was assigned although the call had to be refused (returned '" << call.returned << "')");
+        VP_CHECK(c, fresh.empty() && call.returned.empty(), (call.refuse ? "C13.refuse|" : "C13.no-model|") + call.kind, "an id was assigned although the call had to be refused (returned '" << call.returned << "')");
+        if (call.nv1 != nullptr) {
+            // (the connection getter may legitimately report the id of an existing connection between the two components)
+            std::string hidden = Variable::equivalenceMappingId(call.nv1, call.nv2) + "|" + Variable::equivalenceConnectionId(call.nv1, call.nv2);
+            VP_CHECK(c, hidden == call.hiddenBefore, "C13.refuse|" + call.kind, "the pair getters of a variable pair that is no map_variables / connection of the model changed from '" << call.hiddenBefore << "' to '" << hidden << "'");
+        }
     }
+    VP_CHECK(c, pre.mathIds == post.mathIds, "C13.preserve|" + call.kind + "|math", "the ids inside MathML strings changed");
     for (size_t k = 0; k < fresh.size(); ++k) {
         const Slot &q = post.slots[fresh[k]];
+        {
+            std::string mc = pre.mathCarrier(q.id);
+            VP_CHECK(c, mc.empty(), "C13.unique|" + call.kind + "|hit:math", q.key << " received id '" << q.id << "' which is already the id of an element in the " << mc);
+        }
         auto carriers = pre.withId(q.id);
         if (!carriers.empty()) {
             const Slot &carrier = pre.slots[carriers[0]];
@@ -1372,8 +1636,12 @@ void printerLeg(World &w)
         }
         VP_CHECK(c, hits == 1, "C13.print|element|" + std::string(typeName(s.type)), "expected exactly one element for " << s.key << ", found " << hits << "\n" << text.substr(0, 3000));
         if (!s.id.empty()) {
-            VP_CHECK(c, hit->id == s.id, "C13.print|preserve|" + std::string(typeName(s.type)), s.key << " has id '" << s.id << "' but was printed with '" << hit->id << "'");
+            VP_CHECK(c, hit->id == s.id, "C13.print|preserve|" + std::string(s.partial ? "partial-connection-id" : typeName(s.type)), s.key << " has id '" << s.id << "' but was printed with '" << hit->id << "'");
         } else {
+            {
+                std::string mc = pre.mathCarrier(hit->id);
+                VP_CHECK(c, mc.empty(), "C13.print|unique|hit:math", s.key << " was printed with the automatic id '" << hit->id << "' which is the id of an element in the " << mc);
+            }
             auto carriers = pre.withId(hit->id);
             VP_CHECK(c, carriers.empty(), "C13.print|unique|hit:" + std::string(carriers.empty() ? "" : typeName(pre.slots[carriers[0]].type)),
                      s.key << " was printed with the automatic id '" << hit->id << "' which " << (carriers.empty() ? std::string() : pre.slots[carriers[0]].key) << " carries in the model");
@@ -1524,6 +1792,7 @@ void run(Src &src, Case &c)
     TapeSrc idSrc(idValues);
     const bool attachFirst = !src.flip(8);
     const bool finalPrint = src.flip(60);
+    const bool mathIds = idValues[63] % 100 >= 80;
     const bool shareImports = src.flip(15);
     IdDraw ids;
     ids.mode = static_cast<unsigned>(src.below(8));
@@ -1590,6 +1859,12 @@ void run(Src &src, Case &c)
             r.id = ids.draw(idSrc);
             r.testValueId = ids.draw(idSrc);
             r.resetValueId = ids.draw(idSrc);
+            if (mathIds && !cp.vars.empty() && idSrc.flip(40)) {
+                (idSrc.flip(50) ? r.testValue : r.resetValue) = mathWithIds(cp.vars[0].name, ids.draw(idSrc), ids.draw(idSrc), "");
+            }
+        }
+        if (mathIds && cp.import < 0 && !cp.vars.empty() && idSrc.flip(60)) {
+            cp.math.push_back(mathWithIds(cp.vars[0].name, ids.draw(idSrc), ids.draw(idSrc), ids.draw(idSrc)));
         }
     }
     for (auto &cn : spec.conns) {
@@ -1626,6 +1901,9 @@ void run(Src &src, Case &c)
     if (shareImports) {
         c.cls("imports-shared-allowed");
     }
+    if (mathIds) {
+        c.cls("math-ids-allowed");
+    }
     if (attachFirst) {
         w.a->setModel(w.m);
         w.attached = true;
@@ -1642,6 +1920,12 @@ void run(Src &src, Case &c)
     for (size_t step = 0; step < plan.size() && c.ok; ++step) {
         StepKind k = plan[step];
         TapeSrc src(stepTapes[step]); // shadows the case tape inside the step
+        {
+            const auto &st = stepTapes[step];
+            w.checkSiblings = st[7] % 100 >= 70;
+            w.extraEdit = st[6] % 100 >= 78 ? 15 + static_cast<int>((st[6] / 100) % 3) : -1;
+            w.nonItemPair = st[5] % 100 >= 90;
+        }
         auto crossLabel = [&](const std::string &family) {
             if (editPending && w.attached) {
                 editBeforeAssign = true;
@@ -1755,10 +2039,44 @@ void run(Src &src, Case &c)
             } else {
                 // assignId(item): the tape picks a slot and one of the overloads that can address it
                 bool foreign = src.flip(5);
-                if (foreign) {
+                bool nonItemPair = !foreign && w.nonItemPair;
+                std::vector<std::pair<VariablePtr, VariablePtr>> indirect, unrelated;
+                if (nonItemPair) {
+                    std::vector<VariablePtr> vars;
+                    for (const auto &sl : pre.slots) {
+                        if (sl.type == T::VARIABLE) {
+                            vars.push_back(sl.v1);
+                        }
+                    }
+                    for (size_t i = 0; i < vars.size(); ++i) {
+                        for (size_t j = 0; j < vars.size(); ++j) {
+                            if (i == j || ownerOf(vars[i]) == ownerOf(vars[j]) || vars[i]->hasEquivalentVariable(vars[j])) {
+                                continue;
+                            }
+                            (vars[i]->hasEquivalentVariable(vars[j], true) ? indirect : unrelated).emplace_back(vars[i], vars[j]);
+                        }
+                    }
+                    nonItemPair = !indirect.empty() || !unrelated.empty();
+                }
+                if (nonItemPair) {
+                    bool useIndirect = !indirect.empty() && (unrelated.empty() || src.flip(60));
+                    auto pr = src.pick(useIndirect ? indirect : unrelated);
+                    T type = src.flip(50) ? T::CONNECTION : T::MAP_VARIABLES;
+                    call.kind = std::string("assignId:non-item-pair:") + (useIndirect ? "indirect" : "unrelated");
+                    call.expectNothing = true;
+                    call.refuse = true;
+                    call.nv1 = pr.first;
+                    call.nv2 = pr.second;
+                    call.hiddenBefore = Variable::equivalenceMappingId(pr.first, pr.second) + "|" + Variable::equivalenceConnectionId(pr.first, pr.second);
+                    w.log << "  assignId(v1, v2, " << typeName(type) << ") on " << ownerOf(pr.first)->name() << "/" << pr.first->name() << " and " << ownerOf(pr.second)->name() << "/" << pr.second->name()
+                          << " which are " << (useIndirect ? "only indirectly equivalent" : "not equivalent");
+                    call.returned = src.flip(50) ? w.a->assignId(pr.first, pr.second, type) : w.a->assignId(VariablePair::create(pr.first, pr.second), type);
+                    w.log << " -> '" << call.returned << "'\n";
+                } else if (foreign) {
                     auto v = Variable::create("foreign");
                     call.kind = "assignId:foreign-variable";
                     call.expectNothing = true;
+                    call.refuse = true;
                     w.log << "  assignId(variable that is not in the model)";
                     call.returned = w.a->assignId(v);
                     w.log << " -> '" << call.returned << "'\n";
@@ -1891,17 +2209,20 @@ Property property = {
     "exploration",
     "rapidcheck tapes drive (1) a model generator (genValidModel shapes, validity not required) whose id-bearing items (model, encapsulation, components, component_refs, variables, units, unit children, "
     "import sources, resets, test/reset values, mappings, connections) carry pre-existing ids drawn from none / unique / duplicated / auto-shaped (b4da55...), and (2) a history of 1-10 steps: setModel, "
-    "edits through the API (set/remove any id, add/remove variables, components, units, unit children, resets, equivalences, import sources), assignAllIds(), assignAllIds(model), assignIds(type) for every "
+    "edits through the API (set/remove any id, add/remove/replace variables, components, units, unit children, resets, equivalences, import sources; variable pairs added to labelled connections without ids, connection ids "
+    "held by one pair only, ids inside MathML), assignAllIds(), assignAllIds(model), assignIds(type) for every "
     "CellmlElementType, assignId(item) through every overload, clearAllIds, lookups, printModel(model, true). Oracle: an independent traversal of the model through public getters taken before and after each "
     "call (completeness, preservation, freshness against the pre-call traversal, pairwise distinct new ids, item(new id) is the very object, ids()/duplicateIds()/itemCount()/items()/isUnique()/typed getters equal "
     "the traversal); printed documents are inspected with libxml2 in the harness. Non-trivial: an edit happens between the annotator's last look at the model and an assign call, or auto-shaped / duplicated ids "
     "pre-exist. Distinct = hash of model text + history.",
     run,
     nullptr,
-    {"connection ids are kept equal over all mappings of one connection (the getter is iteration-order dependent otherwise); Variable::removeEquivalenceConnectionId and removeAllEquivalences are not generated",
+    {"the id of a connection is the one non-empty value its variable pairs report; connections whose pairs hold two different non-empty ids are discarded as ambiguous; Variable::removeEquivalenceConnectionId and removeAllEquivalences are not generated",
+     "ids inside MathML strings are identifiers present in the model (new ids must avoid them, they must not change) but are not expected from ids() / item()",
      "no equivalence class holds two variables of one component",
      "component_ref / encapsulation / test_value / reset_value ids are demanded only where the XML representation has the element; stored ids on absent elements still count as ids present in the model",
      "assignId(item) gives its target a new id even when it had one (documented behaviour); every other id must be unchanged",
-     "printed documents: ids are required on CellML-namespace elements only (not on MathML); only automatic ids are required to be distinct when pre-existing ids are duplicated"},
+     "printed documents: ids are required on CellML-namespace elements only (not on MathML); only automatic ids are required to be distinct when pre-existing ids are duplicated",
+     "typed getters must return nullptr for the id of a sibling kind (component / component_ref, model / encapsulation, connection / map_variables, reset / test_value / reset_value)"},
 };
 }
